@@ -757,7 +757,7 @@ def run(ctx):
                       predicate='0 < threshold < 1 (needed for value 0 at ns = 0 and for log(1+alpha))')
     exe = common.ocaml_build(ctx, 'c01') if ctx.model_ok else None
     cases = corpus_cases()
-    n_cases = ctx.budget(260, 9000)
+    n_cases = ctx.budget(600, 15000)
     # explicit quotas: every N' bucket incl. large, every composition kind
     for size in ([300, 3000] if not ctx.thorough() else [300, 1000, 3000, 3000]):
         cases.append(gen_case(ctx, rng, size=size, kind='single'))
@@ -767,7 +767,7 @@ def run(ctx):
             cases.append(gen_case(ctx, rng, size=size, kind=kind))
     while len(cases) < n_cases:
         cases.append(gen_case(ctx, rng))
-    for _ in range(ctx.budget(30, 600)):
+    for _ in range(ctx.budget(60, 1200)):
         cases.append(malformed_case(ctx, rng))
     jobs = []
     for c in cases:
@@ -789,7 +789,7 @@ def run(ctx):
     if exe:
         try:
             compare_model(ctx, jobs, exe, opa)
-            run_multi(ctx, rng, exe, opa, ctx.budget(25, 600))
+            run_multi(ctx, rng, exe, opa, ctx.budget(40, 1200))
         except RuntimeError as ex:
             ctx.broken.append({'kind': 'model-eval', 'error': str(ex)[:1500]})
     else:
